@@ -34,6 +34,7 @@ def run(ctx):
         "valid_views_by_type": {k[6:]: v for k, v in sorted(run.counts.items()) if k.startswith("valid_") and k != "valid_views"},
         "hangs_detected": run.hangs, "contradictions_by_key": counts,
         "session_configuration_vectors": run.counts.get("vectors_cfgparse", 0),
+        "environment_vectors": {k[12:]: v for k, v in sorted(run.counts.items()) if k.startswith("vectors_env_")},
         "session_configurations_excluded": {k[13:]: v for k, v in run.counts.items() if k.startswith("cfg_excluded_")},
         "mechanism_conformant_cases": run.counts.get("mech_conformant", 0),
         "drift": run.drift(), "reflection": run.reflection_coverage(),
